@@ -192,8 +192,40 @@ func timed(d time.Duration, fn func()) bool {
 	}
 }
 
+// guardedStatus / guardedPending: the client's own accessors under a watchdog (a client whose locks are wedged must
+// not wedge the harness: the caller sees "no status" and its own watchdogs report the hang)
+func guardedStatus(c *client.Client) (st *client.ClientStatus, err error) {
+	type res struct {
+		st  *client.ClientStatus
+		err error
+	}
+	ch := make(chan res, 1)
+	go func() { s, e := c.Status(); ch <- res{s, e} }()
+	select {
+	case r := <-ch:
+		return r.st, r.err
+	case <-time.After(shortWatchdog):
+		return nil, fmt.Errorf("HANG: Status() did not return within %v", shortWatchdog)
+	}
+}
+
+func guardedPending(c *client.Client) (pt []client.PendingRequest, err error) {
+	type res struct {
+		pt  []client.PendingRequest
+		err error
+	}
+	ch := make(chan res, 1)
+	go func() { p, e := c.Pending(); ch <- res{p, e} }()
+	select {
+	case r := <-ch:
+		return r.pt, r.err
+	case <-time.After(shortWatchdog):
+		return nil, fmt.Errorf("HANG: Pending() did not return within %v", shortWatchdog)
+	}
+}
+
 func statusErrs(c *client.Client) int {
-	st, err := c.Status()
+	st, err := guardedStatus(c)
 	if err != nil || st == nil {
 		return 0
 	}
@@ -371,11 +403,11 @@ func (r *lrunner) runFault(cs LCase) (out Outcome, problem string) {
 		// the two views of the recorded errors agree, side by side: Status().SendErrs / ReadErrs and the ClientErr of
 		// AwaitConverged (read while nothing is being recorded: the Status before and after the call are equal)
 		for try := 0; try < 25; try++ {
-			s1, _ := c.Status()
+			s1, _ := guardedStatus(c)
 			actx, acancel := context.WithTimeout(context.Background(), 200*time.Millisecond)
 			err := c.AwaitConverged(actx)
 			acancel()
-			s2, _ := c.Status()
+			s2, _ := guardedStatus(c)
 			var ce *client.ClientErr
 			if s1 != nil && s2 != nil && len(s1.SendErrs) == len(s2.SendErrs) && len(s1.ReadErrs) == len(s2.ReadErrs) && errors.As(err, &ce) {
 				if len(ce.Send) != len(s2.SendErrs) || len(ce.Recv) != len(s2.ReadErrs) {
@@ -452,7 +484,7 @@ func (r *lrunner) furtherExchange(c *client.Client, done0 <-chan struct{}, cs LC
 			*problem = fmt.Sprintf(format, a...)
 		}
 	}
-	st, err := c.Status()
+	st, err := guardedStatus(c)
 	if err != nil {
 		note("Status() after Reset: %v", err)
 		return false
@@ -460,7 +492,7 @@ func (r *lrunner) furtherExchange(c *client.Client, done0 <-chan struct{}, cs LC
 	if len(st.PendingTransactions) != 0 || len(st.Results) != 0 || len(st.SendErrs) != 0 || len(st.ReadErrs) != 0 {
 		note("stale state after Reset (client options %q): %d pending %s, %d results, %d send errors, %d receive errors", cs.Opts, len(st.PendingTransactions), pendingKinds(st.PendingTransactions), len(st.Results), len(st.SendErrs), len(st.ReadErrs))
 	}
-	if pt, err := c.Pending(); err != nil || len(pt) != 0 {
+	if pt, err := guardedPending(c); err != nil || len(pt) != 0 {
 		note("Pending() after Reset (client options %q): %d transactions %s, err %v", cs.Opts, len(pt), pendingKinds(pt), err)
 	}
 	select {
@@ -506,7 +538,7 @@ func (r *lrunner) furtherExchange(c *client.Client, done0 <-chan struct{}, cs LC
 	if cs.fib() {
 		wantRes += 3
 	}
-	if st, _ := c.Status(); st != nil && (len(st.Results) != wantRes || len(st.PendingTransactions) != 0) {
+	if st, _ := guardedStatus(c); st != nil && (len(st.Results) != wantRes || len(st.PendingTransactions) != 0) {
 		note("reconnected client (options %q): %d results (want %d), %d pending %s after its handshake and 3 requests were answered", cs.Opts, len(st.Results), wantRes, len(st.PendingTransactions), pendingKinds(st.PendingTransactions))
 	}
 	// nothing of the connection before Reset is remembered: a result for operation 1 - which that connection may
